@@ -6,6 +6,7 @@ import CoapVerif.Driver.Codec
      consts                                          → the constants M depends on -/
 -- DRIVER-OPS: tcp consts => Coap.Driver.Stream.step
 -- DRIVER-OPS: ws => Coap.Driver.Stream.wsStep
+-- DRIVER-OPS: wsclose => Coap.Driver.Stream.wsCloseStep
 namespace Coap.Driver.Stream
 open Coap Coap.M.Stream Coap.Spec.Stream
 
@@ -80,6 +81,27 @@ def wsStep (args : List String) : String :=
       "M " ++ showMsgs r.1 ++ " end=" ++ e ++ (if e = "closed" then "" else " up=" ++ (if up then "1" else "0")) ++
       " | S " ++ showMsgs s.msgs ++ " end=" ++ (if s.closed then "closed" else "open") ++
         (if s.closed then "" else " up=" ++ (if s.up then "1" else "0"))
+    | _, _, _ => "bad-op"
+  | _ => "bad-op"
+
+/-- `wsclose <c|s> <stream-hex> <cut>`: stream[0..cut) received in one chunk, then the application closes the
+session with stream[cut..) available: what `coap_ws_close`'s draining leaves (model only, S does not speak about it) -/
+def wsCloseStep (args : List String) : String :=
+  match args with
+  | [m, h, c] =>
+    let mode? : Option Coap.Spec.Stream.Ws.Mode :=
+      if m = "c" then some .client else if m = "s" then some .server else none
+    match mode?, bytesOfHex h, c.toNat? with
+    | some mode, some bs, some cut =>
+      if cut > bs.length then "bad-op" else
+      let r := Coap.M.Ws.feed mode acceptConst {} [bs.take cut]
+      match r.2.1, r.2.2 with
+      | .open st, false =>
+        if st.up then
+          let d := Coap.M.Ws.wsClose mode st (bs.drop cut)
+          "M " ++ showMsgs r.1 ++ " drain rc=" ++ (if d.1 then "1" else "0") ++ " left=" ++ toString d.2.2.1.length
+        else "M " ++ showMsgs r.1 ++ " noclose"
+      | _, _ => "M " ++ showMsgs r.1 ++ " noclose"
     | _, _, _ => "bad-op"
   | _ => "bad-op"
 
